@@ -525,7 +525,25 @@ def gen_sweep_plan(run_seed: int, k: int) -> dict:
     else:
         name, g = "R0", pool.random_grammar(random.Random(common.derive_seed("C15-rg", k % 16, (k // 16) // 4, 0)))
     calls = [c for c in g["calls"] if len(c[1]) <= 48] or g["calls"][:2]
-    flavour = "cold" if rng.random() < 0.6 else "warm"
+    flavour = rng.choices(("cold", "warm", "history"), (5, 3, 2))[0]
+    if flavour == "history":
+        # HISTORY sweep: no threads.  For every pool call c_i: a fresh object, c_i as the FIRST
+        # call ever made with it, then every pool call c_j -- all ordered pairs (first call on
+        # the object, later call), plus whatever the later calls leave to each other
+        hist_calls = [list(c) for c in rng.sample(calls, min(len(calls), 36))]
+        for _ in range(40):
+            if len(hist_calls) >= 16:
+                break
+            r0, t0 = rng.choice(calls)
+            v = [r0, pool.mutate_input(rng, t0)]
+            if v not in hist_calls:
+                hist_calls.append(v)
+        optimizers = {"o_none": {"passes": None}, "o_shared": {"passes": list(pool.PASS_NAMES), "shared_default": True}, "o1": {"passes": pool.random_optimizer_cfg(rng)}}
+        return {
+            "property": "C15", "kind": "sweep", "run_seed": run_seed, "job": k, "grammars": {name: g["text"]}, "optimizers": optimizers, "g": name,
+            "opt": rng.choices(("o_none", "o_shared", "o1"), (4, 4, 2))[0], "mode": "generated" if rng.random() < 0.4 else "interpreter",
+            "pairs": [], "calls": hist_calls, "flavour": flavour,
+        }
     pairs = []
     for c1 in rng.sample(calls, min(len(calls), 6 if flavour == "cold" else 1)):
         r = rng.random()
@@ -576,6 +594,20 @@ def sweep_phases(plan):
         return setup
 
     only = plan.get("only")  # [[pair index, step], ...]: replay of single rounds
+    if plan["flavour"] == "history":
+        calls = plan["calls"]
+        for i, ci in enumerate(calls):
+            later = list(enumerate(calls))
+            if only is not None:
+                later = [(j, calls[j]) for ii, j in only if ii == i and 0 <= j < len(calls)]
+                if not later:
+                    continue
+            setup, target = fresh()
+            ops = number(setup, f"h{i}")
+            ops.append(parse(target, ci, f"h{i}.first"))
+            ops.extend(parse(target, cj, f"h{i}.then{j}") for j, cj in later)
+            yield {"setup": ops, "clients": [], "schedule": {"first": None, "traced": False, "yields": []}, "faults": [], "history_first": i}
+        return
     for j, (c1, c2) in enumerate(plan["pairs"]):
         flavour = plan["flavour"]
         if only is not None:
@@ -1035,6 +1067,8 @@ def execute_plan(plan) -> dict:
                 scheds.append(run_phase(ph))
                 if "sweep_k" in ph:
                     swept.append([ph["sweep_k"], ph["flavour"], any(y[2] >= 0 for y in scheds[-1].recorded)])
+                if "history_first" in ph:
+                    swept.append([ph["history_first"], "history", False])
                 if scheds[-1].capped:
                     break
                 ph = src.send(scheds[-1])
@@ -1255,6 +1289,7 @@ def sweep_stats(plan, run, viols, checked):
         "sweep_runs": 1,
         "sweep_rounds": len(sw),
         "sweep_rounds_cold": sum(1 for x in sw if x[1] == "cold"),
+        "sweep_history_first_calls": sum(1 for x in sw if x[1] == "history"),
         "sweep_rounds_with_the_planned_switch": sum(1 for x in sw if x[2]),
         "runs_by_policy": {"sweep": 1},
         "runs_fault_free": 1,
@@ -1266,7 +1301,7 @@ def sweep_stats(plan, run, viols, checked):
         "set_sites": [f"{a}:{b}" for a, b in run["sites"]],
         "probes": dict(run["concurrency_probe"]),
     }
-    return st, bool(checked and run["switches"])
+    return st, bool(checked and (run["switches"] or plan.get("flavour") == "history"))
 
 
 def plan_stats(plan, run, viols, checked):
@@ -1541,6 +1576,8 @@ class Check:
         if plan.get("kind") == "hashseed":
             return len(plan["calls"])
         if plan.get("kind") == "sweep":
+            if plan["flavour"] == "history":
+                return 40 + (20 * len(plan["only"]) if plan.get("only") is not None else 20 * len(plan["calls"]) ** 2)
             return 40 + (20 * len(plan["only"]) if plan.get("only") is not None else 20 * plan.get("max_rounds", 300) * len(plan["pairs"])) + sum(len(a[1]) + len(b[1]) for a, b in plan["pairs"])
         if plan.get("phases"):
             return sum(20 + 10 * sum(len(c) for c in ph["clients"]) + 5 * len(ph.get("setup", ())) + len((ph.get("schedule") or {}).get("yields", ())) for ph in plan["phases"])
@@ -1558,6 +1595,9 @@ class Check:
         if plan.get("kind") == "sweep":
             # the one round in which the violation was seen (w<pair>_<step>.c?.0), then simpler arguments
             oid = str((plan.get("violation") or {}).get("detail", {}).get("oid") or "")
+            mh = re.match(r"h(\d+)\.then(\d+)$", oid)
+            if plan.get("only") is None and mh:
+                yield {**plan, "only": [[int(mh.group(1)), int(mh.group(2))]]}
             m = re.match(r"w(\d+)_(\d+)\.", oid)
             if plan.get("only") is None and m:
                 yield {**plan, "only": [[int(m.group(1)), int(m.group(2))]]}
@@ -1672,6 +1712,11 @@ class Check:
         if plan.get("kind") == "sweep":
             spec = plan["optimizers"][plan["opt"]]
             o = "optimizer=None" if spec["passes"] is None else ("DEFAULT_OPTIMIZER" if spec.get("shared_default") else f"Optimizer({spec['passes']})")
+            if plan["flavour"] == "history":
+                cs = plan["calls"]
+                if plan.get("only") is not None:
+                    return f"history sweep over {plan['g']} ({o}, {plan['mode']}): " + "; ".join(f"fresh object, parse({cs[i][0]!r}, {cs[i][1][:40]!r}) first, then parse({cs[j][0]!r}, {cs[j][1][:40]!r})" for i, j in plan["only"][:4])
+                return f"history sweep over {plan['g']} ({o}, {plan['mode']}): for each of {len(cs)} pool calls a fresh object, that call first, then all {len(cs)} calls"
             which = "every step only a cold call executes" if plan["flavour"] == "cold" else "every step"
             pairs = list(enumerate(plan["pairs"]))
             if plan.get("only") is not None:
@@ -1767,7 +1812,7 @@ class Check:
             "operation_status_counts": acc.get("op_status", {}),
             "runs_by_policy": acc.get("runs_by_policy", {}),
             "race_plans": {"runs": acc.get("race_runs", 0), "rounds": acc.get("race_rounds", 0), "rounds_with_a_mid_operation_switch": acc.get("race_rounds_with_a_mid_operation_switch", 0), "what": "30-85 short rounds per run: 6-14 with a fresh parser (+module), the rest re-using one; 2-3 clients parsing with the object at once, one or two pre-emptions per round"},
-            "sweep_plans": {"runs": acc.get("sweep_runs", 0), "rounds": acc.get("sweep_rounds", 0), "cold_rounds": acc.get("sweep_rounds_cold", 0), "rounds_in_which_the_planned_switch_happened": acc.get("sweep_rounds_with_the_planned_switch", 0), "what": "per plan one (grammar, optimizer setting, interpreter|generated, call pair): client0's call pre-empted once, at every step that only a cold call executes (fresh object per round) or at every step (one warm object), by client1's call running to completion"},
+            "sweep_plans": {"runs": acc.get("sweep_runs", 0), "rounds": acc.get("sweep_rounds", 0), "cold_rounds": acc.get("sweep_rounds_cold", 0), "history_sweep_first_calls": acc.get("sweep_history_first_calls", 0), "rounds_in_which_the_planned_switch_happened": acc.get("sweep_rounds_with_the_planned_switch", 0), "what": "per plan one (grammar, optimizer setting, interpreter|generated, call pair): client0's call pre-empted once, at every step that only a cold call executes (fresh object per round) or at every step (one warm object), by client1's call running to completion"},
             "runs_by_client_threads": acc.get("threads", {}),
             "simulated_time_scheduler_steps": steps,
             "context_switches": acc.get("switches", 0),
